@@ -133,7 +133,7 @@ class Vocab:
         return True
 
 
-def render(case, vocab, rot, allow_ph=False, style=0, perm=None, ns="", forms=None):
+def render(case, vocab, rot, allow_ph=False, style=0, perm=None, ns="", forms=None, casing=0):
     """Abstract case {par, kind, sflaw} -> (text, flaw description or None).
 
     rot   : rotation index selecting concrete tags / values / flaw
@@ -154,31 +154,39 @@ def render(case, vocab, rot, allow_ph=False, style=0, perm=None, ns="", forms=No
     sp = [", ", ",", " , ", ",  "][style % 4]
     lp, rp = [("(", ")"), ("( ", " )"), ("(", ")"), (" (", ") ")][style % 4]
 
+    leafno = [0]
+
+    def cs(txt):
+        if casing == 3:      # mixed: every other tag occurrence in lower case
+            leafno[0] += 1
+            return txt.lower() if leafno[0] % 2 else txt
+        return txt.lower() if casing == 1 else txt.upper() if casing == 2 else txt
+
     def leaf(k):
         nonlocal flaw_used
         kd = kind[k]
         if kd == "p1":
-            return vocab.form(p1, fo, ns)
+            return ns + cs(vocab.form(p1, fo))
         if kd == "p2":
-            return vocab.form(p2, fo + 1, ns)
+            return ns + cs(vocab.form(p2, fo + 1))
         if kd == "v":
-            return vocab.form(vtag[0], fo + 2, ns) + "/" + vtag[1]
+            return ns + cs(vocab.form(vtag[0], fo + 2)) + "/" + vtag[1]
         if kd == "bad":
             flaw_used = flaw
             txt = flaw[1](rot)
             return ns + txt if ns and not txt.startswith("Qq") else (ns + txt if ns else txt)
         if kd == "def":
-            return ns + DEF_USES[rot % len(DEF_USES)]
+            return ns + cs(DEF_USES[rot % len(DEF_USES)])
         if kd == "on":
-            return ns + ("Inset" if (vocab.inset_ok and rot % 3 == 1) else "Onset")
+            return ns + cs("Inset" if (vocab.inset_ok and rot % 3 == 1) else "Onset")
         if kd == "off":
-            return ns + "Offset"
+            return ns + cs("Offset")
         if kd == "dur":
-            return ns + "Duration/" + ["3 s", "3000 ms", "2.5 s"][rot % 3]
+            return ns + cs("Duration") + "/" + ["3 s", "3000 ms", "2.5 s"][rot % 3]
         if kd == "del":
-            return ns + "Delay/" + ["2 s", "1 s", "500 ms"][rot % 3]
+            return ns + cs("Delay") + "/" + ["2 s", "1 s", "500 ms"][rot % 3]
         if kd == "uq":
-            return ns + "Event-context"
+            return ns + cs("Event-context")
         raise ValueError(kd)
 
     def node(k):
